@@ -455,6 +455,31 @@ int link(const char *from, const char *to) {
   return r;
 }
 
+// read(2) and write(2) called DIRECTLY by the compiler (stdio's own transfers do not come through here): every other call on a
+// descriptor above 2 transfers only part of what was asked for, as the kernel may at any time (a signal, a pipe, a full disk, a
+// quota) -- never an error, never a false end of file. Code that loops until done does not notice.
+static long n_shortio;
+ssize_t read(int fd, void *buf, size_t n) {
+  static ssize_t (*real)(int, void *, size_t);
+  if (!real) real = dlsym(RTLD_NEXT, "read");
+  static unsigned calls;
+  if (active && !coarse && fd > 2 && fd != CFD && n > 1 && (++calls & 1)) {
+    n_shortio++;
+    n = n > 8 ? n / 2 + 1 : 1;
+  }
+  return real(fd, buf, n);
+}
+ssize_t write(int fd, const void *buf, size_t n) {
+  static ssize_t (*real)(int, const void *, size_t);
+  if (!real) real = dlsym(RTLD_NEXT, "write");
+  static unsigned calls;
+  if (active && !coarse && fd > 2 && fd != CFD && n > 1 && (++calls & 1)) {
+    n_shortio++;
+    n = n > 8 ? n / 2 + 1 : 1;
+  }
+  return real(fd, buf, n);
+}
+
 int unlink(const char *path);
 // remove() and unlinkat() reach the kernel without going through unlink(): route them here, so that every deletion is an event
 int remove(const char *path) {
